@@ -39,7 +39,8 @@ func init() {
 	}}
 	properties["T14"] = &propertyDef{Decides: "debug", Run: func(c *rules.Ctx) []report.Obligation { return c.IMMDerive("IMM") }}
 	properties["T19"] = &propertyDef{Decides: "debug", Run: func(c *rules.Ctx) []report.Obligation { return c.GLOB("GLOB") }}
-	properties["T13"] = &propertyDef{Decides: "debug", Run: func(c *rules.Ctx) []report.Obligation { o := append(c.R3("R3", "graph", "types"), c.FanOut("FAN")...)
+	properties["T13"] = &propertyDef{Decides: "debug", Run: func(c *rules.Ctx) []report.Obligation {
+		o := append(c.R3("R3", "graph", "types"), c.FanOut("FAN")...)
 		o = append(o, c.TRV("TRV")...)
 		o = append(o, c.ROnly("RONLY", "graph", []string{"graph.walk"}, map[string]bool{"traversal.status": true, "traversal.results": true})...)
 		return o
@@ -54,6 +55,15 @@ func init() {
 		o = append(o, c.TERM("TERM", "LOAD", "RENDER", "SELECT", "GRAPH", "DOTENV", "TEMPLATE")...)
 		return o
 	}}
+	properties["T11"] = &propertyDef{Decides: "debug", Run: func(c *rules.Ctx) []report.Obligation {
+		o := c.DFLT("DFLT", []string{"transform.SetDefaultValues", "transform.Canonical", "loader.Normalize"}, []string{"loader.load"})
+		o = append(o, c.RangeGuard("LAY-1", "types.(Mapping).Merge", true)...)
+		o = append(o, c.RangeGuard("LAY-1", "types.(MappingWithEquals).Resolve", true)...)
+		o = append(o, c.RangeGuard("LAY-1", "cli.WithOsEnv", true)...)
+		o = append(o, c.RangeGuard("LAY-1", "types.(MappingWithEquals).OverrideBy", false)...)
+		return o
+	}}
+	properties["T05"] = &propertyDef{Decides: "debug", Run: func(c *rules.Ctx) []report.Obligation { return append(c.EXT("EXT"), c.INC("INC")...) }}
 	properties["C01"] = &propertyDef{
 		Decides:    "no unchecked type assertion on input-derived data in code reachable from the load entry points outside the proved / justified / known set (PANIC-TA)",
 		NotDecided: "termination, stack bounds, nil dereferences, panics inside dependencies",
